@@ -160,7 +160,7 @@ Proof. vm_compute. repeat split. Qed.
    build mode and operand (no well-formedness hypothesis): an edit of the source that changes what one of these
    functions computes or delegates to breaks this theorem ---- *)
 From Bnum.Model Require Import Digit Core Shift AddSub Mul Div Bits Pow.
-From Bnum.Model Require Ops.
+From Bnum.Model Require Ops NumTraits.
 From Bnum.Generated Require Import Glue.
 From Bnum.Proofs Require Import GlueTieCommon GlueTieC04.
 Theorem C04_glue_rs_matches_model :
